@@ -1094,6 +1094,30 @@ def expr_of(body, op, depth=0):
             if d and d[2] == 'assign' and d[3].rv.r == 'binop' and projs[0][1] == 0:
                 rv = d[3].rv
                 return ('binop', rv.j['op'].replace('WithOverflow', ''), expr_of(body, rv.ops[0], depth + 1), expr_of(body, rv.ops[1], depth + 1))
+            # several tuple aggregates (one per return of an inlined helper) that all put the same local in position k
+            if d is None:
+                ds_ = [x for x in body.defs.get(l, []) if x[2] == 'assign' and x[3].kind == 'assign' and not x[3].place[1]]
+                # several copies of one and the same tuple local (the result of an inlined helper assigned at each of its returns)
+                if ds_ and len(ds_) == len(body.defs.get(l, [])) and body.lty(l).startswith('(') and l not in mut_borrowed(body):
+                    srcs = {x[3].rv.ops[0].place[0] if (x[3].rv.r == 'use' and x[3].rv.ops[0].place is not None and not x[3].rv.ops[0].place[1]) else None for x in ds_}
+                    if len(srcs) == 1 and None not in srcs:
+                        return expr_of(body, _FakeOp((next(iter(srcs)), projs)), depth + 1)
+                if ds_ and len(ds_) == len(body.defs.get(l, [])) and all(x[3].rv.r == 'aggregate' and x[3].rv.j.get('agg') == 'tuple' and projs[0][1] < len(x[3].rv.ops) for x in ds_):
+                    def root_(lc, n=0):
+                        d2 = unique_def(body, lc)
+                        if n < 6 and d2 is not None and d2[2] == 'assign' and d2[3].rv.r == 'use' and d2[3].rv.ops[0].place is not None and not d2[3].rv.ops[0].place[1]:
+                            return root_(d2[3].rv.ops[0].place[0], n + 1)
+                        return lc
+                    ks = {root_(x[3].rv.ops[projs[0][1]].place[0]) if x[3].rv.ops[projs[0][1]].place is not None and not x[3].rv.ops[projs[0][1]].place[1] else None for x in ds_}
+                    if len(ks) == 1 and None not in ks and l not in mut_borrowed(body):
+                        return expr_of(body, _FakeOp((next(iter(ks)), ())), depth + 1)
+            # field k of a tuple built locally (or moved from one): the k-th operand of the aggregate
+            if d and d[2] == 'assign' and d[3].kind == 'assign' and not d[3].place[1]:
+                rv = d[3].rv
+                if rv.r == 'aggregate' and rv.j.get('agg') == 'tuple' and projs[0][1] < len(rv.ops):
+                    return expr_of(body, rv.ops[projs[0][1]], depth + 1)
+                if rv.r == 'use' and rv.ops[0].place is not None and not rv.ops[0].place[1] and body.lty(rv.ops[0].place[0]).startswith('('):
+                    return expr_of(body, _FakeOp((rv.ops[0].place[0], projs)), depth + 1)
         return ('place', op.place)
     d = unique_def(body, l)
     if d is None:
